@@ -277,6 +277,11 @@ func (w *worker) runPath(item workItem) {
 	in.depth = 0
 	in.stack = in.stack[:0]
 	in.Observed = nil
+	in.mapOrderMode = 0
+	in.permCount = 0
+	in.permBySize = nil
+	in.mon = nil
+	in.mons = [2]*monitor{}
 	if in.dirty {
 		// a global was written on the previous path: re-run initialisers
 		in.globals = map[*ssa.Global]*Value{}
